@@ -377,8 +377,19 @@ def run_case(rec, M, ctx, opts):
             rec.count("opt:split_dis_hit")
     if lines_wd is not None:
         for b in good:
-            if len(b.lines) > lines_wd:
-                fail("lines_wd exceeded", "block of %d lines with lines_wd=%d" % (len(b.lines), lines_wd))
+            if len(b.lines) > lines_wd and b not in broken:
+                # the limit never separates a branch from its delay slots: a block may exceed it
+                # only by the delay slots of a flow instruction among its first lines_wd lines
+                extra_ok = False
+                for j, line in enumerate(b.lines[:lines_wd]):
+                    fi = M.flow_info(dec, line.offset, oldb)
+                    if fi is not None and fi["breakflow"] and fi["delayslot"] and \
+                            len(b.lines) <= j + 1 + fi["delayslot"]:
+                        extra_ok = True
+                        rec.count("lines_wd_delayslot_completed")
+                        break
+                if not extra_ok:
+                    fail("lines_wd exceeded", "block of %d lines with lines_wd=%d" % (len(b.lines), lines_wd))
     if blocs_wd is not None:
         if len(calls) > blocs_wd:
             fail("blocs_wd exceeded", "%d blocks disassembled with blocs_wd=%d" % (len(calls), blocs_wd))
